@@ -11,7 +11,7 @@
 (* latest successful simulation and the calls made after it (property C10).  C10_Fresh relates both.  *)
 (* Named deviations reproduce defects that the shipped tree had (D3, D4): their configs must be       *)
 (* refuted by TLC, which shows the invariant is not vacuous.                                          *)
-EXTENDS Naturals, Sequences, FiniteSets, TLC, Json
+EXTENDS Integers, Sequences, FiniteSets, TLC, Json
 
 CONSTANTS Kind,       \* "ideal" | "single"
           MaxDepth,   \* bound on the number of calls in a history
@@ -120,7 +120,8 @@ Do(c) == SimulateReject(c) \/ Simulate(c) \/ RF(c) \/ Interp(c)
 Init == /\ sim = NoSim /\ cache = NoCache /\ pfAttr = "ctor" /\ tainted = FALSE
         /\ hist = <<>> /\ obs = [kind |-> "none"] /\ exp = <<>>
 
-Next == Len(hist) < MaxDepth /\ \E c \in Calls : Do(c)
+\* MaxDepth < 0: no bound on the history (used with VIEW AbstractView, under which the state space is finite)
+Next == (MaxDepth < 0 \/ Len(hist) < MaxDepth) /\ \E c \in Calls : Do(c)
 
 Spec == Init /\ [][Next]_vars
 
@@ -148,6 +149,14 @@ C17_MismatchRejected == (hist # <<>> /\ Rejected(hist[Len(hist)])) => obs.kind =
 
 \* the cache never survives a simulation (the mechanism behind C10_Fresh)
 CacheIsCurrent == (cache # NoCache /\ ~tainted) => cache.sim = sim
+
+\* state-based form of C10 for histories of ANY length (checked with MaxDepth = Unbounded and VIEW AbstractView): what a call
+\* shows belongs to the simulation the object currently holds, and the interpolator shows the cached mode
+ObsCurrent == /\ obs.kind \in {"sim", "rf", "interp"} => obs.of = sim
+              /\ obs.kind = "interp" => (cache # NoCache /\ cache.sim = sim /\ obs.mode = cache.mode)
+              /\ obs.kind = "rf" => (cache = [sim |-> sim, mode |-> obs.mode])
+AbstractView == <<sim, cache, pfAttr, tainted, obs>>
+Unbounded == -1
 
 \* ---- export of behaviours for replay into the code (spec -> code) ----------------------------------------
 ExportLeaf == (Export /\ Len(hist) = MaxDepth) => PrintT(ToJson([tag |-> "BEH", kind |-> Kind, steps |-> exp]))
